@@ -1,7 +1,7 @@
 SPECIFICATION Spec
 CONSTANTS
-  N = 3
-  Silent = {2}
+  N = 2
+  Silent = {}
   Peers = {1, 2}
   MaxDup = 1
   MaxForeign = 1
